@@ -97,6 +97,20 @@ impl FileSystem for AltrootFS {
         }
         self.path(src)?.copy_file(&self.path(dest)?)
     }
+
+    fn move_file(&self, src: &str, dest: &str) -> VfsResult<()> {
+        if dest.is_empty() {
+            return Err(VfsErrorKind::NotSupported.into());
+        }
+        self.path(src)?.move_file(&self.path(dest)?)
+    }
+
+    fn move_dir(&self, src: &str, dest: &str) -> VfsResult<()> {
+        if dest.is_empty() {
+            return Err(VfsErrorKind::NotSupported.into());
+        }
+        self.path(src)?.move_dir(&self.path(dest)?)
+    }
 }
 
 #[cfg(test)]
